@@ -154,11 +154,11 @@ KeyFn(mode, a, v) ==
            [] a = "hash"        -> (v + 1) \div 2
 ByFn(mode, a, v) ==
     IF mode = "coherent" THEN v \div 2
-    ELSE CASE a = "ord"         -> (5 - v) \div 2
+    ELSE CASE a = "ord"         -> (9 - v) \div 2
            [] a = "partial_ord" -> (v + 1) % 3
-           [] a = "eq"          -> (5 - v) \div 3
+           [] a = "eq"          -> (9 - v) \div 3
            [] a = "partial_eq"  -> (v + 1) % 2
-           [] a = "hash"        -> (6 - v) \div 2
+           [] a = "hash"        -> (10 - v) \div 2
 
 \* the value a field is compared / hashed through under outcome o
 Proj(o, mode, v) ==
